@@ -38,6 +38,10 @@ type flowStep struct {
 	// browser says where it came from. The flow is tracked at the URL that was requested, whatever the method and the Referer.
 	Method  string `json:"method,omitempty"`
 	Referer string `json:"referer,omitempty"`
+	// start: the URL asked for is long - a search form, a report with many filters (LongQuery bytes of query value appended), a deep
+	// path (LongPath bytes of path segment appended). Long or short, it is the URL the flow has to end at
+	LongQuery int `json:"long_query,omitempty"`
+	LongPath  int `json:"long_path,omitempty"`
 	// Forged (answer): Mallory takes an assertion the IdP issued for no request (signed, no InResponseTo anywhere), strips the outer
 	// signature and writes the victim flow's request ID into the unsigned envelope
 	Forged bool `json:"forged_envelope,omitempty"`
@@ -80,7 +84,7 @@ func genFlows(g *Rng, tier string) *Plan {
 		}
 		k.Deploys[i].ArtifactBinding = g.Bool(0.3)
 	}
-	p := &Plan{Knobs: mustJSON(k)}
+	p := &Plan{}
 	var steps []flowStep
 	nflows, nresps := 0, 0
 	n := 4 + g.Intn(11)
@@ -166,10 +170,58 @@ func genFlows(g *Rng, tier string) *Plan {
 			steps = append(steps, flowStep{Kind: "deliver", Resp: nresps + (m - 1 - j), B: -1, Jar: "faithful", Relay: "echo"})
 		}
 	}
+	// (drawn after everything else, so that the histories of earlier versions stay what they were for a given seed)
+	// long URLs: the tracking cookie has to carry whatever URL was asked for
+	for i := range steps {
+		if steps[i].Kind == "start" && g.Bool(0.15) {
+			if g.Bool(0.8) {
+				steps[i].LongQuery = Pick(g, 300, 1500, 2500, 3500, 5000, 9000)
+			} else {
+				steps[i].LongPath = Pick(g, 300, 1500, 3500, 6000)
+			}
+		}
+	}
+	// custom relay-state functions returning long values, told apart by their first or by their last bytes
+	for i := range k.Deploys {
+		if g.Bool(0.3) {
+			k.Deploys[i].CustomRS = true
+			k.Deploys[i].CustomRSLen = Pick(g, 48, 96, 160, 400)
+			k.Deploys[i].CustomRSOwnLast = g.Bool(0.5)
+		}
+	}
+	p.Knobs = mustJSON(k)
 	for _, s := range steps {
 		p.Steps = append(p.Steps, mustJSON(s))
 	}
 	return p
+}
+
+// longURL is the URL a start step asks for: st.URL, made long as the step says.
+func longURL(st flowStep) string {
+	target := st.URL
+	if st.LongPath > 0 {
+		path, query, hasQuery := strings.Cut(target, "?")
+		target = strings.TrimSuffix(path, "/") + "/" + strings.Repeat("s", st.LongPath)
+		if hasQuery {
+			target += "?" + query
+		}
+	}
+	if st.LongQuery > 0 {
+		sep := "?"
+		if strings.Contains(target, "?") {
+			sep = "&"
+		}
+		target += sep + "q=" + strings.Repeat("a", st.LongQuery) + "&page=2"
+	}
+	return target
+}
+
+// abbrev keeps log lines and verdicts readable when a URL or relay state is long: the ends and the length.
+func abbrev(s string) string {
+	if len(s) <= 160 {
+		return s
+	}
+	return fmt.Sprintf("%s...(%d bytes)...%s", s[:60], len(s), s[len(s)-40:])
 }
 
 type flowRec struct {
@@ -239,7 +291,10 @@ func execFlows(t *testing.T, p *Plan) *Result {
 				continue
 			}
 			d, b := deploys[st.SP], browsers[st.B]
-			u, _ := url.Parse(d.base + st.URL)
+			u, _ := url.Parse(d.base + longURL(st))
+			if st.LongQuery > 0 || st.LongPath > 0 {
+				res.probe("flow-started-at-long-url")
+			}
 			method, hdr, body, ct := "GET", http.Header{}, "", ""
 			if st.Method != "" {
 				method = st.Method
@@ -272,9 +327,18 @@ func execFlows(t *testing.T, p *Plan) *Result {
 					tc = c
 				}
 			}
-			if tc == nil || ar.RelayState == "" || tc.Name != "saml_"+ar.RelayState {
+			if tc == nil || ar.RelayState == "" {
 				res.violate(si, "flow-start-untracked", "C17/flow-start-untracked", "tracking cookie named after the RelayState", fmt.Sprintf("relay=%q cookie=%v", ar.RelayState, tc != nil), "")
 				return res
+			}
+			if tc.Name != "saml_"+ar.RelayState {
+				// the RelayState the IdP is handed (and will echo) names no tracking cookie, or another flow's
+				res.violate(si, "flow-start-untracked", "C17/flow-start-untracked/relay-state-names-no-cookie", "tracking cookie named after the RelayState that goes to the IdP",
+					fmt.Sprintf("relay=%q (%d bytes) cookie=%q (%d bytes)", abbrev(ar.RelayState), len(ar.RelayState), abbrev(tc.Name), len(tc.Name)), "echoed faithfully, this RelayState cannot bring the flow back to its own URL")
+				return res
+			}
+			if d.conf.CustomRSLen > 0 && len(ar.RelayState) >= d.conf.CustomRSLen {
+				res.probe("flow-started-with-long-custom-relay-state")
 			}
 			if !tc.HttpOnly || (d.conf.HTTPS && !tc.Secure) {
 				res.violate(si, "tracking-cookie-flags", "C17/tracking-cookie-flags", "HttpOnly (and Secure on https)", fmt.Sprintf("httponly=%v secure=%v", tc.HttpOnly, tc.Secure), "")
@@ -494,7 +558,7 @@ func execFlows(t *testing.T, p *Plan) *Result {
 				if mustAccept {
 					// a faithful flow (authentic fresh cookie, echoed RelayState, fresh genuine response) ends in a panic instead of a session
 					res.logf("step %d deliver resp %d: PANIC on a faithful flow", si, st.Resp)
-					res.violate(si, "faithful-flow-refused", "C17/faithful-flow-refused/panic", "SESSION->"+f.url, "panic in the assertion consumer", short(fmt.Sprint(rep.Panic), 200))
+					res.violate(si, "faithful-flow-refused", "C17/faithful-flow-refused/panic", "SESSION->"+abbrev(f.url), "panic in the assertion consumer", short(fmt.Sprint(rep.Panic), 200))
 					return res
 				}
 				res.Excluded = "panic (reported under C09)"
@@ -513,7 +577,7 @@ func execFlows(t *testing.T, p *Plan) *Result {
 			loc := rep.Header.Get("Location")
 			observed := fmt.Sprintf("%d", rep.Code)
 			if sess != nil {
-				observed = "SESSION->" + loc
+				observed = "SESSION->" + abbrev(loc)
 			}
 			res.logf("step %d deliver resp %d (flow %d, user %d, nth=%d) to b%d jar=%s relay=%s authentic=%v respFresh=%v mustAccept=%v -> %s",
 				si, st.Resp, r.flow, r.user, r.count, bi, jar, st.Relay, fmtAuth(authentic), respFresh, mustAccept, observed)
@@ -571,7 +635,7 @@ func execFlows(t *testing.T, p *Plan) *Result {
 							if s, ok := authentic[fi]; ok && s <= 1 {
 								wantLoc = fl.url
 								if !cleared[fl.cookieName] {
-									res.violate(si, "tracking-cookie-not-cleared", "C17/tracking-cookie-not-cleared", "clearing Set-Cookie for "+fl.cookieName, "none", "")
+									res.violate(si, "tracking-cookie-not-cleared", "C17/tracking-cookie-not-cleared", "clearing Set-Cookie for "+abbrev(fl.cookieName), "none", "")
 									return res
 								}
 							}
@@ -588,8 +652,11 @@ func execFlows(t *testing.T, p *Plan) *Result {
 					}
 				}
 				if wantLoc == "" || (loc != wantLoc && loc != d.base+wantLoc) {
-					res.violate(si, "redirect-not-tracked-url", "C17/redirect-target/"+st.Relay, "redirect to the URL recorded in the authentic tracking cookie named by RelayState (or the default)", loc, "want "+wantLoc)
+					res.violate(si, "redirect-not-tracked-url", "C17/redirect-target/"+st.Relay, "redirect to the URL recorded in the authentic tracking cookie named by RelayState (or the default)", abbrev(loc), "want "+abbrev(wantLoc))
 					return res
+				}
+				if len(wantLoc) > 160 {
+					res.probe("flow-completed-at-long-url")
 				}
 				if rep.Code != http.StatusFound {
 					res.violate(si, "session-without-redirect", "C17/session-without-redirect", "302", fmt.Sprint(rep.Code), "")
@@ -601,7 +668,7 @@ func execFlows(t *testing.T, p *Plan) *Result {
 				}
 			} else {
 				if mustAccept {
-					res.violate(si, "faithful-flow-refused", "C17/faithful-flow-refused", "SESSION->"+f.url, observed, "faithful jar, echoed RelayState, fresh tracking cookie and response")
+					res.violate(si, "faithful-flow-refused", "C17/faithful-flow-refused", "SESSION->"+abbrev(f.url), observed, "faithful jar, echoed RelayState, fresh tracking cookie and response")
 					return res
 				}
 				for _, c := range rep.Cookies {
@@ -709,10 +776,10 @@ func simplifyFlows(p *Plan) []*Plan {
 func init() {
 	register(&Profile{
 		ID: "C17", Name: "flows", Level: "exploration",
-		Rule: "histories of 4-14 actions over {start flow at URL u (<=3 pending, 1-2 browsers, 1-2 deployments http/https, redirect/POST binding, custom relay-state function, RSA/ECDSA key), foreign IdP answers flow k for user x (or unsolicited), deliver response with jar policy in {faithful, subset, other-flow-only, none, renamed, swapped, expired-kept, forged, session-token-as-tracking-cookie, other browser's jar, faithful plus a cookie planted under another name with a foreign key} and RelayState in {echoed, other flow's, absent, arbitrary URL, the planted cookie's index}, replay, advance clock around the tracking lifetime (= MaxIssueDelay knob), visit protected page}; one run in five is fault-free; non-trivial = at least one delivery with an unfaithful jar/RelayState/browser or a replay; distinct = distinct abstract log; start URLs include percent-encoded structural characters in the path; targeted tails: (a) completed login, then an unsolicited response with the session token re-filed as a tracking cookie, (b) the ACS sees and refuses the tracking cookie early, the IdP answers after the lifetime and the stale cookie is still presented; clearing any tracking cookie other than the one named by the RelayState is a violation",
+		Rule: "histories of 4-14 actions over {start flow at URL u (<=3 pending, 1-2 browsers, 1-2 deployments http/https, redirect/POST binding, custom relay-state function, RSA/ECDSA key), foreign IdP answers flow k for user x (or unsolicited), deliver response with jar policy in {faithful, subset, other-flow-only, none, renamed, swapped, expired-kept, forged, session-token-as-tracking-cookie, other browser's jar, faithful plus a cookie planted under another name with a foreign key} and RelayState in {echoed, other flow's, absent, arbitrary URL, the planted cookie's index}, replay, advance clock around the tracking lifetime (= MaxIssueDelay knob), visit protected page}; one run in five is fault-free; non-trivial = at least one delivery with an unfaithful jar/RelayState/browser or a replay; distinct = distinct abstract log; start URLs include percent-encoded structural characters in the path; targeted tails: (a) completed login, then an unsolicited response with the session token re-filed as a tracking cookie, (b) the ACS sees and refuses the tracking cookie early, the IdP answers after the lifetime and the stale cookie is still presented; clearing any tracking cookie other than the one named by the RelayState is a violation; about one start in seven asks for a long URL (0.3-9 kB of query value or 0.3-6 kB of path segment) and has to come back to exactly that; three deployments in ten have a custom relay-state function returning 48-400 byte values that differ in their first or only in their last bytes, and the RelayState handed to the IdP has to name the flow's tracking cookie",
 		Gen:  genFlows, Exec: execFlows, Simplify: simplifyFlows,
 		RunsQuick: 2500, RunsThorough: 250000,
-		Assumptions: []string{"a presented cookie is authentic for flow i iff it carries exactly the value the SP minted for flow i under exactly that name (harness bookkeeping, no token decoding in the oracle)", "tracking age within +-2 s of the lifetime is a declared don't-care (JWT instants are whole seconds)", "the sufficient direction (must accept) is asserted only for faithful jar + echoed RelayState in the originating browser, as the statement does", "tracking lifetime is taken from saml.MaxIssueDelay as drawn for the run, not from the tracker's own field"},
+		Assumptions: []string{"a presented cookie is authentic for flow i iff it carries exactly the value the SP minted for flow i under exactly that name (harness bookkeeping, no token decoding in the oracle)", "tracking age within +-2 s of the lifetime is a declared don't-care (JWT instants are whole seconds)", "the sufficient direction (must accept) is asserted only for faithful jar + echoed RelayState in the originating browser, as the statement does", "tracking lifetime is taken from saml.MaxIssueDelay as drawn for the run, not from the tracker's own field", "the browser stub keeps cookies of any size (RFC 6265 obliges user agents to keep at least 4096 bytes per cookie, it sets no upper limit); the IdP stub echoes a RelayState of any length"},
 		Components: map[string][]string{
 			"real": {"samlsp.Middleware (RequireAccount, HandleStartAuthFlow, ServeACS, CreateSessionFromAssertion)", "CookieRequestTracker + JWTTrackedRequestCodec", "CookieSessionProvider + JWTSessionCodec", "saml.ServiceProvider.ParseResponse", "golang-jwt", "net/http cookie parsing"},
 			"stub": {"browser (cookie jar honouring Path/Secure/Max-Age/Expires on the simulated clock)", "foreign IdP (library schema types + goxmldsig)", "party between browser and SP choosing jar and RelayState"},
